@@ -80,6 +80,15 @@ func (x *Exec) doCall(st *State, fr *Frame, ci *ssa.Call) bool {
 		recv := fr.get(x, cc.Value)
 		x.safe(st, fr, "nil", ci.Pos(), Neq(recv.l[0], mkBV(0, 32)))
 		name := cc.Method.FullName()
+		// devirtualisation: the dynamic type is known (constant tag, or fixed by the path condition)
+		if ct := x.knownDynType(st, recv.l[0]); ct != nil {
+			if sel := x.prog.MethodSets.MethodSet(ct).Lookup(cc.Method.Pkg(), cc.Method.Name()); sel != nil {
+				if callee := x.prog.MethodValue(sel); callee != nil {
+					rv := x.unbox(st, ct, recv)
+					return x.staticCall(st, fr, ci, callee, append([]SV{rv}, args...), nil)
+				}
+			}
+		}
 		if c := x.ifaceContract(cc.Value.Type(), cc.Method); c != nil {
 			sig := cc.Method.Type().(*types.Signature)
 			x.modularCall(st, fr, ci, c, sig, append([]SV{recv}, args...), nil, "iface:"+name)
@@ -124,6 +133,11 @@ func (x *Exec) doCall(st *State, fr *Frame, ci *ssa.Call) bool {
 			binds = append(binds, fr.get(x, b))
 		}
 	}
+	return x.staticCall(st, fr, ci, callee, args, binds)
+}
+
+// staticCall dispatches a call whose callee is known: model, contract, effect-free, inline or havoc.
+func (x *Exec) staticCall(st *State, fr *Frame, ci *ssa.Call, callee *ssa.Function, args []SV, binds []SV) bool {
 	name := callee.String()
 	tc := x.contractFor(fr.fn)
 	rel := relName(callee)
@@ -156,6 +170,25 @@ func (x *Exec) doCall(st *State, fr *Frame, ci *ssa.Call) bool {
 	}
 	x.opaqueCall(st, fr, ci, name)
 	return true
+}
+
+// knownDynType returns the concrete type behind an interface tag when it is determined.
+func (x *Exec) knownDynType(st *State, tag *Term) types.Type {
+	if tag.isConst() {
+		return x.typeByID[int(tag.c.Int64())]
+	}
+	for _, f := range st.pc {
+		if f.op == "=" {
+			a, b := f.args[0], f.args[1]
+			if a == tag && b.isConst() {
+				return x.typeByID[int(b.c.Int64())]
+			}
+			if b == tag && a.isConst() {
+				return x.typeByID[int(a.c.Int64())]
+			}
+		}
+	}
+	return nil
 }
 
 func (x *Exec) onStack(st *State, f *ssa.Function) bool {
